@@ -8,6 +8,7 @@ import json, os, subprocess, sys, glob, concurrent.futures as cf
 V = "/verif"
 EXTRA = {  # checks known (from probes) to be the natural catchers besides the seed's own property
     "C08-r2A": ["C10", "C09"], "C09-r2B": ["C10"], "C13-r2B": ["C09"], "C18-r2B": ["C16"], "C14-r2B": ["C15"],
+    "C08-r5A": ["C13"], "C13-r5B": ["C09"], "C18-r5A": ["C14"],
 }
 
 def meta_own_missed(sid):
